@@ -41,6 +41,20 @@ class Entry:
 def _entry_for(F: Facts, m: Module, key: str, v: ast.AST) -> Entry:
     if isinstance(v, ast.Lambda):
         return Entry(key, 'lambda', v, v, v.lineno)
+    if isinstance(v, ast.Call) and isinstance(v.func, ast.Name) and v.func.id == 'staticmethod' and len(v.args) == 1 and not v.keywords:
+        return _entry_for(F, m, key, v.args[0])
+    if isinstance(v, ast.Attribute):
+        # Namespace.member: a staticmethod def or a class-level `member = staticmethod(lambda ...)` of a package class
+        rb = F.resolve_expr(m, v.value)
+        if rb[0] == 'cls' and rb[1] in F.classes:
+            ci = F.classes[rb[1]]
+            if v.attr in ci.methods and (rb[1] + '.' + v.attr) in F.functions:
+                mnode = ci.methods[v.attr]
+                if any(isinstance(d, ast.Name) and d.id == 'staticmethod' for d in mnode.decorator_list):
+                    return Entry(key, 'fn', rb[1] + '.' + v.attr, v, mnode.lineno)
+            for st in ci.node.body:
+                if isinstance(st, ast.Assign) and any(isinstance(t, ast.Name) and t.id == v.attr for t in st.targets):
+                    return _entry_for(F, ci.module, key, st.value)
     r = F.resolve_expr(m, v)
     if r[0] == 'fn':
         return Entry(key, 'fn', r[1], v, v.lineno)
